@@ -487,7 +487,7 @@ def c05_r2(ctx: Ctx, rule):
             for nm in root_names:
                 defs = all_assignments(fi.node, nm)
                 src = " ".join(norm(d) for d in defs if d is not None)
-                if "self." in src or "_prov_type" in src or "get_type" in src:
+                if "self." in src or ctx.type_field() in src or "get_type" in src:
                     res.fail(rule.id, "guard-escape-on-record-state::%s" % nm, ctx.loc(norm_q, c),
                              "the guard escape %s is derived from the record (%s), not from the attributes of this call" % (nm, src),
                              "a membership record accepts a second prov:entity through a later add_attributes call")
